@@ -35,7 +35,7 @@ pub fn run_check(replay: Option<Value>) -> i32 {
         dim("tol", &tols),
         dim("first_step", &fss),
         dim("max_step", &mss),
-        dim("api", &["low-level SolOut", "solve_ivp dense", "solve_ivp dense + terminal event", "solve_ivp without dense", "solve_ivp dense + max_steps=5 (run ends early)", "solve_ivp dense + first_step=2e-13"]),
+        dim("api", &["low-level SolOut", "solve_ivp dense", "solve_ivp dense + terminal event", "solve_ivp without dense", "solve_ivp dense + max_steps=5 (run ends early)", "solve_ivp dense + first_step=2e-13", "solve_ivp dense + two requested times (most steps hold none)"]),
         // the end point in many different roundings (api "solve_ivp dense" only): the last reported time and
         // the end of the last segment must be the same number, however xold + h rounds
         dim("span_factor", &span_factors()),
@@ -72,15 +72,33 @@ pub fn run_check(replay: Option<Value>) -> i32 {
         }
         let dir = xend.signum();
         if api == 0 {
-            let r = run_lowlevel(&p, &c, &[], &[0.5], None, false);
-            out.events = r.recs.len() as u64;
+          // all-Continue, and a history in which the callback rescales the state twice (ModifiedSolution): the next
+          // step's interpolant starts from the state the callback left behind
+          let scripts: [Vec<(usize, crate::env::Ans)>; 2] = [vec![], vec![(2, crate::env::Ans::Modified(1.5)), (4, crate::env::Ans::Modified(0.5))]];
+          for (si, script) in scripts.iter().enumerate() {
+            let r = run_lowlevel(&p, &c, script, &[0.5], None, false);
+            out.events += r.recs.len() as u64;
             if r.ok().map(|ir| ir.status != Status::Success).unwrap_or(true) {
+                if si == 1 {
+                    continue; // a rescaled state may legitimately end differently; the all-Continue run is the judged one
+                }
                 viol!("outcome", format!("low-level run ended with {}", r.outcome_name()));
                 return Some(out);
             }
-            let recs = &r.recs;
+            let recs_raw = &r.recs;
+            // the state each callback left behind
+            let recs: Vec<crate::env::StepRec> = recs_raw.iter().enumerate().map(|(j, q)| {
+                let mut q2 = q.clone();
+                if let Some((_, crate::env::Ans::Modified(f))) = script.iter().find(|(k, _)| *k == j) {
+                    q2.y = q.y.iter().map(|v| v * f).collect();
+                }
+                q2
+            }).collect();
+            if si == 1 {
+                out.tag("dense-after-modification");
+            }
             for j in 1..recs.len() {
-                let (q, pq) = (&recs[j], &recs[j - 1]);
+                let (q, pq) = (&recs_raw[j], &recs[j - 1]);
                 if !q.has_interp {
                     viol!("no-interpolant", format!("step {} has no interpolant", j));
                     continue;
@@ -113,9 +131,12 @@ pub fn run_check(replay: Option<Value>) -> i32 {
             if r.st.n_ode as usize > 3 * recs.len() + 20 && !crate::run::is_implicit(m) {
                 out.tag("with-rejections");
             }
-            let mut h = r.st.fp;
-            h.u(recs.len() as u64);
-            out.fp = Some(h.as_u128());
+            if si == 0 {
+                let mut h = r.st.fp;
+                h.u(recs.len() as u64);
+                out.fp = Some(h.as_u128());
+            }
+          }
         } else {
             c.dense = api != 3;
             if api == 4 {
@@ -130,6 +151,9 @@ pub fn run_check(replay: Option<Value>) -> i32 {
             }
             if api == 2 {
                 c.events = vec![EventSpec::new(EvKind::T(0.613 * xend)).term(1), EventSpec::new(EvKind::Cos(2.0))];
+            }
+            if api == 6 {
+                c.t_eval = Some(vec![0.35 * xend, 0.7 * xend]);
             }
             let r = run(&p, &c);
             out.events = r.st.n_ode;
